@@ -46,11 +46,11 @@ def early_order() -> str:
 
 
 def cfg_text(source: str, maxn: int, docstates: List[str], invariants: bool = True, late_orders: str = "all",
-             late_backs: str = "upto1") -> str:
+             late_backs: str = "upto1", split_sample: str = "all") -> str:
     inv = "".join(f"INVARIANT {i}\n" for i in INVARIANTS) if invariants else ""
     ds = "{" + ", ".join(json.dumps(d) for d in docstates) + "}"
     return (f"SPECIFICATION Spec\nCONSTANTS MaxN = {maxn}\n          Source = \"{source}\"\n"
-            f"          DocStates = {ds}\n          EarlyOrder = \"{early_order()}\"\n          LateOrders = \"{late_orders}\"\n          LateBacks = \"{late_backs}\"\n"
+            f"          DocStates = {ds}\n          EarlyOrder = \"{early_order()}\"\n          LateOrders = \"{late_orders}\"\n          LateBacks = \"{late_backs}\"\n          SplitSample = \"{split_sample}\"\n"
             f"CONSTRAINT Emit\n{inv}")
 
 
@@ -693,8 +693,8 @@ def tlc_cases(ctx: Ctx, source: str, maxn: int, docstates: List[str], out: Dict[
     key = kw.pop("key", source)
     try:
         r = ctx.tlc("MRO", cfg_text(source, maxn, docstates, invariants=True, late_orders=kw.pop("late_orders", "all"),
-                                       late_backs=kw.pop("late_backs", "upto1")),
-                    workers=kw.pop("workers", 5), check=True, timeout=1500, cfg_name=f"MRO_{key}.cfg", **kw)
+                                       late_backs=kw.pop("late_backs", "upto1"), split_sample=kw.pop("split_sample", "all")),
+                    workers=kw.pop("workers", 5), check=True, timeout=1500, java_opts=("-XX:ParallelGCThreads=2",), cfg_name=f"MRO_{key}.cfg", **kw)
         out[key] = r
     except BaseException as e:            # re-raised in the main thread
         out[key] = e
@@ -716,7 +716,8 @@ def run(ctx: Ctx) -> int:
                                 kwargs={"workers": 2, "key": "late2", "late_backs": "two"})]
     # @implementer classes in the docstring-inheritance universe; the last of 5 classes post-processed before its bases
     threads.append(threading.Thread(target=tlc_cases, args=(ctx, "zope", 3, docstates, results), kwargs={"workers": 1}))
-    threads.append(threading.Thread(target=tlc_cases, args=(ctx, "split", 5, docstates, results), kwargs={"workers": 3}))
+    threads.append(threading.Thread(target=tlc_cases, args=(ctx, "split", 5, docstates, results),
+                                    kwargs={"workers": 2, "split_sample": "quick" if ctx.quick else "all"}))
     if not ctx.quick:
         threads.append(threading.Thread(target=tlc_cases, args=(ctx, "late", 4, ["absent", "doc"], results),
                                         kwargs={"workers": 4, "key": "late4", "late_orders": "two"}))
@@ -754,7 +755,13 @@ def run(ctx: Ctx) -> int:
         g["layout"] = {"kind": "split"}
     if len(zope) != 10 * len(docstates) ** 3 * 8:
         raise MachineryError(f"TLC emitted {len(zope)} zope cases, expected {10 * len(docstates) ** 3 * 8}")
-    want_split = sum(max(r["bases"][4], default=0) for r in enum)      # split points below the highest base of class 5
+    def hsum(b: List[List[int]]) -> int:          # MRO.tla HSum
+        return sum(i * sum(j * x for j, x in enumerate(bs, 1)) for i, bs in enumerate(b, 1))
+    if ctx.quick:       # the stratified sample: at least two second-pass bases, fixed third by hash
+        want_split = sum(1 for r in enum for sp in range(0, 4)
+                         if len([x for x in r["bases"][4] if x > sp]) >= 2 and (hsum(r["bases"]) + sp) % 3 == 0)
+    else:               # split points below the highest base of class 5
+        want_split = sum(max(r["bases"][4], default=0) for r in enum)
     if len(split) != want_split:
         raise MachineryError(f"TLC emitted {len(split)} split cases, expected {want_split}")
     want = {"enum": 10400, "members": 160 * len(docstates) ** 4, "graph": 125, "late": len(late)}
@@ -788,10 +795,12 @@ def run(ctx: Ctx) -> int:
 
     # the member placements twice more with early dotted lookups through the classes (alias statements / a nested
     # class used as a base), which pydoctor evaluates during analysis, before any MRO exists
-    m_alias = [dict(r, early="alias") for r in members]
-    m_nested = [dict(r, early="nested") for r in members]
-    l_alias = [dict(r, early="alias") for r in late]
-    l_nested = [dict(r, early="nested") for r in late]
+    # quick: each case gets ONE of the two early-lookup variants (alternating in the sorted order), thorough: both
+    pick = (lambda lst, par: [r for i, r in enumerate(lst) if i % 2 == par]) if ctx.quick else (lambda lst, par: lst)
+    m_alias = [dict(r, early="alias") for r in pick(members, 0)]
+    m_nested = [dict(r, early="nested") for r in pick(members, 1)]
+    l_alias = [dict(r, early="alias") for r in pick(late, 0)]
+    l_nested = [dict(r, early="nested") for r in pick(late, 1)]
     all_cases = enum + members + graph + file_cases + file_graphs + m_alias + m_nested + l_alias + l_nested + zope + split
     origins = (["enum"] * len(enum) + ["members"] * len(members) + ["graph"] * len(graph)
                + ["modules"] * len(file_cases) + ["graph-random"] * len(file_graphs)
